@@ -261,7 +261,7 @@ def check(ctx):
         else: io_ = ["err"]
         mm = mo if mo[0] == "ok" else ["err"]
         if not (io_ == mm or (io_[0] == "ok" and mm[0] == "ok" and writeprops.same_doc(io_[1], mm[1]))):
-            ctx.disagree("out-of-domain" if (io_[0] == "ill-formed" or unesc) else "history-write", dict(case=ci, op=list(map(str, desc))), io_[0], mm[0])
+            ctx.disagree("out-of-domain" if unesc else "history-write", dict(case=ci, op=list(map(str, desc))), io_[0], mm[0])
     pick = [i for i in range(len(reqs)) if len(vlib.to_sx(reqs[i])) < 9000][:5]
     ctx.crosscheck = vlib.coq_crosscheck([reqs[i] for i in pick], [ans[i] for i in pick], "c15")
 
